@@ -123,7 +123,7 @@ static Verdict check_pairs(const Case& c, bool self_only) {
           Q scale = fabsq((Q)x);
           if (A.affine) scale += fabsq(A.O / A.F);
           double e = err_ulps(nt, got, (Q)x, scale);
-          if (e > 2.0) return Verdict::fail(fmt("%s: Convert(%s, %s -> itself) in %s returned %s: %.2f ulp from the input (allowed 2)", U->name, hexld(x).c_str(), U->unit_names[a], ntinfo(nt).name, hexld(got).c_str(), e));
+          if (!(e <= 2.0)) return Verdict::fail(fmt("%s: Convert(%s, %s -> itself) in %s returned %s: %.2f ulp from the input (allowed 2)", U->name, hexld(x).c_str(), U->unit_names[a], ntinfo(nt).name, hexld(got).c_str(), e));
         }
         continue;
       }
@@ -137,7 +137,7 @@ static Verdict check_pairs(const Case& c, bool self_only) {
         continue;
       }
       double e = err_ulps(nt, got, exact, scale);
-      if (e > kTolPair)
+      if (!(e <= kTolPair))
         return Verdict::fail(fmt("%s: Convert(%s = %s, %s -> %s) in %s returned %s, the factor implied by the symbols gives %s: %.3g ulp off (allowed %.0f)", U->name, hexld(x).c_str(), decld(x).c_str(),
                                  U->unit_names[a], U->unit_names[b], ntinfo(nt).name, decld(got).c_str(), qstr(exact).c_str(), e, kTolPair));
     }
@@ -177,7 +177,7 @@ static Verdict check_static(const Case& c) {
       if (A.affine || B.affine) { Q s2 = fabsq((Q)x * A.F / B.F), s3 = fabsq(A.O / B.F), s4 = fabsq(B.O / B.F); if (s2 > scale) scale = s2; if (s3 > scale) scale = s3; if (s4 > scale) scale = s4; }
       else if (x == 0) { if (got != 0) return Verdict::fail(fmt("%s: ConvertStatically<%s -> %s>(0) = %s", U->name, U->unit_names[a], U->unit_names[b], hexld(got).c_str())); continue; }
       double e = err_ulps(nt, got, exact, scale);
-      if (e > kTolPair)
+      if (!(e <= kTolPair))
         return Verdict::fail(fmt("%s: ConvertStatically<%s -> %s>(%s) in %s returned %s, symbols imply %s: %.3g ulp off (allowed %.0f)", U->name, U->unit_names[a], U->unit_names[b], decld(x).c_str(), ntinfo(nt).name, decld(got).c_str(), qstr(exact).c_str(), e, kTolPair));
     }
   }
